@@ -211,6 +211,9 @@ class Facts:
     def _index(self):
         for key, f in self.functions.items():
             self.by_name[f["name"]].append(f)
+        self.global_by_id_name = {}
+        for key, g in self.globals.items():
+            self.global_by_id_name.setdefault(g["name"], g)
         # call sites
         self.calls = {}
         for key, f in self.functions.items():
